@@ -151,7 +151,7 @@ def run(tier):
     for h in fixed:
         ops = A.bind_history(h, allocs, resizes)
         for osd in ("b", "a", "d"):
-            plans.append({"kind": "hist", "slots": nslots, "ops": ops, "os": osd, "refuse_each": osd == "b", "walk": True, "src": "tlc-fixed"})
+            plans.append({"kind": "hist", "slots": nslots, "ops": ops, "os": osd, "refuse_each": osd == "b", "walk": True, "amplify": True, "src": "tlc-fixed"})
     n_fixed = len(plans)
     # the same structures over other boundary alphabets, started from a non-empty, churned heap
     rng = A.rng_for(chk, "c03")
@@ -161,7 +161,7 @@ def run(tier):
         al, rs = random_alphabet(rng, k, nalloc, nresize, big_ok=(i % 4 == 0))
         plans.append({"kind": "hist", "slots": nslots, "ops": A.bind_history(h, al, rs), "os": rng.choice("bad"),
                       "oseq": [rng.choice("bad") for _ in range(4)], "refuse_each": i % 3 == 0,
-                      "warm": rng.randrange(1, 1 << 30) if i % 2 == 0 else 0, "classes": classes, "walk": i % 2 == 1, "src": "tlc-rotated"})
+                      "warm": rng.randrange(1, 1 << 30) if i % 2 == 0 else 0, "classes": classes, "walk": i % 2 == 1, "amplify": i % 2 == 0, "src": "tlc-rotated"})
     # seeded random long histories with random placement and random refusals
     n_rand, n_ops = (70, 300) if quick else (700, 600)
     rand_plans = []
@@ -172,6 +172,23 @@ def run(tier):
                            "max_live": (160 << 20) if big else (24 << 20),
                            "rand_place": True, "os": rng.choice("bad"), "rand_refuse": rng.choice([0, 20, 100, 300]),
                            "classes": A.boundary_sizes(k) if big else classes, "aligns": A.ALIGNS, "src": "random"})
+    # directed family "the heap grows onto a free first chunk": the first chunk of a segment is made
+    # the designated victim (malloc A, malloc B, free A, malloc C < A splits A: remainder = dv, free C:
+    # dv grows back to the segment start) or a binned free chunk (no C), then a request that needs the
+    # OS; with placement "below" the new mapping is prepended and merged with that first chunk
+    # (prepend_alloc, branches oldfirst == dv / oldfirst free), then the block behind it is freed
+    # (backward coalescing trusts the merged chunk's foot) and the space is handed out again
+    for a_sz in (56, 120, 200, 232, 300, 1016):
+        for b_sz in (24, 100, 504):
+            for c_sz in (None, a_sz // 2, max(1, a_sz - 48), 24):
+                for d_sz in (k["granularity"] - 103, 100000, k["trim_threshold"]):
+                    ops = [["m", 0, a_sz, 16], ["m", 1, b_sz, 16], ["f", 0]]
+                    if c_sz is not None:
+                        ops += [["m", 0, c_sz, 16], ["f", 0]]
+                    ops += [["m", 2, d_sz, 16], ["f", 1], ["m", 0, a_sz + b_sz, 16], ["m", 1, 40, 16]]
+                    for osd in ("b", "a", "d"):
+                        plans.append({"kind": "hist", "slots": 4, "ops": ops, "os": osd, "refuse_each": osd == "b" and c_sz == 24,
+                                      "walk": True, "amplify": True, "src": "directed-grow-onto-free-first-chunk"})
     # unsatisfiable requests (legal layouts far beyond what any OS grants): null, nothing lost,
     # the heap stays usable; logged sizes are clamped to 2^29 (>= Huge) for TLC's integers
     for i, huge in enumerate([1 << 31, 1 << 40, (1 << 62) + 12345, (1 << 63) - 4096 - 1]):
